@@ -26,6 +26,9 @@ def DataFrame_left_join (truth : Term → Bool) : Out :=
   let new' : Term := (Term.app "value-after-loop" [(Term.sym "new"), eff1]);
   Out.fall [eff0, eff1]
 
+/-- the decorators of dataiter/data_frame.py: DataFrame.left_join, outermost first -/
+def DataFrame_left_join_decorators : List String := ["deco.new_from_generator"]
+
 /-- dataiter/data_frame.py: DataFrame.inner_join (sha256 of the function source: 4dbdeabd107d4c04) -/
 def DataFrame_inner_join (truth : Term → Bool) : Out :=
   let tup0_1' : Term := (Term.app "._split_join_by" [(Term.sym "self"), (Term.app "*" [(Term.sym "by")])]);
@@ -39,6 +42,9 @@ def DataFrame_inner_join (truth : Term → Bool) : Out :=
   let eff1 : Term := (Term.app "for" [(Term.app "tuple" [(Term.sym "colname"), (Term.sym "column")]), (Term.app ".items" [other']), (Term.app "block" [(Term.app "if" [(Term.app "In" [(Term.sym "colname"), by2']), (Term.app "block" [(Term.sym "continue")]), (Term.app "block" [])]), (Term.app "if" [(Term.app "In" [(Term.sym "colname"), (Term.sym "self")]), (Term.app "block" [(Term.sym "continue")]), (Term.app "block" [])]), (Term.app "yield" [(Term.app "tuple" [(Term.sym "colname"), (Term.app ".copy" [(Term.app "getitem" [(Term.sym "column"), (Term.app "getitem" [src', found'])])])])])])]);
   Out.fall [eff0, eff1]
 
+/-- the decorators of dataiter/data_frame.py: DataFrame.inner_join, outermost first -/
+def DataFrame_inner_join_decorators : List String := ["deco.new_from_generator"]
+
 /-- dataiter/data_frame.py: DataFrame.semi_join (sha256 of the function source: d6cf60209f5136da) -/
 def DataFrame_semi_join (truth : Term → Bool) : Out :=
   let tup0_1' : Term := (Term.app "._split_join_by" [(Term.sym "self"), (Term.app "*" [(Term.sym "by")])]);
@@ -50,6 +56,9 @@ def DataFrame_semi_join (truth : Term → Bool) : Out :=
   let src' : Term := (Term.app "item1" [tup3_1']);
   let eff0 : Term := (Term.app "for" [(Term.app "tuple" [(Term.sym "colname"), (Term.sym "column")]), (Term.app ".items" [(Term.sym "self")]), (Term.app "block" [(Term.app "yield" [(Term.app "tuple" [(Term.sym "colname"), (Term.app ".copy" [(Term.app "getitem" [(Term.sym "column"), found'])])])])])]);
   Out.fall [eff0]
+
+/-- the decorators of dataiter/data_frame.py: DataFrame.semi_join, outermost first -/
+def DataFrame_semi_join_decorators : List String := ["deco.new_from_generator"]
 
 /-- dataiter/data_frame.py: DataFrame.anti_join (sha256 of the function source: 09e57d87cbee322c) -/
 def DataFrame_anti_join (truth : Term → Bool) : Out :=
@@ -63,11 +72,17 @@ def DataFrame_anti_join (truth : Term → Bool) : Out :=
   let eff0 : Term := (Term.app "for" [(Term.app "tuple" [(Term.sym "colname"), (Term.sym "column")]), (Term.app ".items" [(Term.sym "self")]), (Term.app "block" [(Term.app "yield" [(Term.app "tuple" [(Term.sym "colname"), (Term.app "np.delete" [(Term.sym "column"), found'])])])])]);
   Out.fall [eff0]
 
+/-- the decorators of dataiter/data_frame.py: DataFrame.anti_join, outermost first -/
+def DataFrame_anti_join_decorators : List String := ["deco.new_from_generator"]
+
 /-- dataiter/data_frame.py: DataFrame._split_join_by (sha256 of the function source: 514e3228ccced4c1) -/
 def DataFrame_split_join_by (truth : Term → Bool) : Out :=
   let by1' : Term := (Term.app "ListComp" [(Term.app "ifexp" [(Term.app "isinstance" [(Term.sym "x"), (Term.sym "str")]), (Term.sym "x"), (Term.app "getitem" [(Term.sym "x"), (Term.int (0 : Int))])]), (Term.app "in" [(Term.sym "x"), (Term.sym "by"), (Term.app "if" [])])]);
   let by2' : Term := (Term.app "ListComp" [(Term.app "ifexp" [(Term.app "isinstance" [(Term.sym "x"), (Term.sym "str")]), (Term.sym "x"), (Term.app "getitem" [(Term.sym "x"), (Term.int (1 : Int))])]), (Term.app "in" [(Term.sym "x"), (Term.sym "by"), (Term.app "if" [])])]);
   Out.ret [] (Term.app "tuple" [by1', by2'])
+
+/-- the decorators of dataiter/data_frame.py: DataFrame._split_join_by, outermost first -/
+def DataFrame_split_join_by_decorators : List String := []
 
 /-- dataiter/data_frame.py: DataFrame._get_join_indices (sha256 of the function source: 03068a1b581400ad) -/
 def DataFrame_get_join_indices (truth : Term → Bool) : Out :=
@@ -78,5 +93,8 @@ def DataFrame_get_join_indices (truth : Term → Bool) : Out :=
   let src' : Term := (Term.app "np.fromiter" [src', (Term.sym "int"), (Term.app "=count" [(Term.app ".nrow" [(Term.sym "self")])])]);
   let found' : Term := (Term.app "np.where" [(Term.app "Gt" [src', (Term.int (-(1 : Int)))])]);
   Out.ret [] (Term.app "tuple" [found', src'])
+
+/-- the decorators of dataiter/data_frame.py: DataFrame._get_join_indices, outermost first -/
+def DataFrame_get_join_indices_decorators : List String := []
 
 end DI.Gen
